@@ -40,6 +40,9 @@ def constructed(rng):
             yield E.AddExpression(cls(C(3), col), E.MultiplyExpression(V("x"), cls(C(2), col)))
             yield cls(cls(C(4), col), not col)
     yield E.AddExpression(V("x"), V("x"))
+    yield E.AddExpression(E.NegateExpression(), C(1))
+    yield E.MultiplyExpression(C(2), E.FactorialExpression(None, True))
+    yield E.SgnExpression()
     # the same operand OBJECT passed for both sides of one operator (x = Variable("x"); Multiply(x, x)):
     # prints, evaluates and clones like the tree it unfolds to
     x = V("x")
@@ -138,6 +141,34 @@ def drive_tree(rec, root, rng, expr=True):
             mutate_and_compare(rec, S.root_of(copy_node), root, rng, "copy")
         except Exception:
             pass
+        # a tree under construction / repair: a one-operand node whose operand has been taken out
+        # (or was never given) is cloned as it is -- the copy is the same hole-y tree, and filling
+        # the hole afterwards gives the same tree on both
+        from mathy_core import expressions as _E
+
+        hole = root.clone()
+        unary = [x for x in S.nodes_preorder(hole) if isinstance(x, _E.UnaryExpression) and x.get_child() is not None]
+        if unary:
+            u = rng.choice(unary)
+            try:
+                if u.left is not None:
+                    u.set_left(None, clear_old_child_parent=True)
+                else:
+                    u.set_right(None, clear_old_child_parent=True)
+                rec.arm("clone:unary-without-operand")
+                snap = hole.clone()
+                twin = [x for x, y in zip(S.nodes_preorder(snap), S.nodes_preorder(hole)) if y is u]
+                if twin:
+                    for node in (u, twin[0]):
+                        node.set_child(_E.VariableExpression("h"))
+                    rec.ev()
+                    if S.shadow(snap) != S.shadow(hole):
+                        rec.violation("C13", "clone/operand-side", "a one-operand node lost the side its operand is on",
+                                      {"tree": S.to_json(S.shadow(root)), "summary": f"'{S.text_of(root)}': the operand of a {type(u).__name__} was taken out, the tree cloned, and the same "
+                                       f"operand put back with set_child on both: original '{S.text_of(hole)}' (operand {'left' if u.left is not None else 'right'}), "
+                                       f"copy has it on the {'left' if twin[0].left is not None else 'right'}"})
+            except Exception:
+                pass
         # re-parent a subtree of a throw-away copy into a NEW tree and clone from the root via
         # its nodes again: whatever a node remembered from the earlier calls is stale now
         from mathy_core import expressions as E
